@@ -372,6 +372,9 @@ func TestC10(t *testing.T) {
 			c10Run(t, e, false, []string{fmt.Sprintf("begin %d receiver tcp", n)}, c10RandomNext(e, 3+e.Rng.IntN(lenTCP)))
 		}
 	}
+	if !onlyReplay {
+		c10EstablisherTLS(t, e)
+	}
 	e.Stats["exhaustive"] = !onlyReplay && exhaustiveComplete
 	e.Stats["exhaustive_depth"] = depth
 	e.Stats["exhaustive_histories"] = exhaustiveScripts
